@@ -283,6 +283,96 @@ theorem right_is_number_agree (f : Disp → Val → Val → R Val) (name : Strin
 
 end Quantities
 
+/-! ### closures over Python builtins: `intify(operator.lt)` …, `quantity_function` of `register_numeric_function` -/
+
+section Builtins
+variable (rec : Disp)
+open Gen.Bodies
+
+/-- `intify(f)`: `1 if f(x, y) else 0` over a comparison builtin -/
+theorem intify_agree (nm : String) (x y : Num) :
+    (do let n ← intify__f_new (pyOperatorCmp nm) rec (.num x) (.num y); pure (PyRt.pyInt n)) = bCmp nm rec [.num x, .num y] := by
+  simp only [intify__f_new, pyOperatorCmp, bCmp, ok_bind, pure_def, b2v, PyRt.pyInt]
+  cases cmpByName nm x y <;> rfl
+
+/-- `quantity_function` over a builtin: `Quantity(f(q.mag), q.qv)` -/
+theorem quantity_function_builtin_agree (fn : Elementary.Fn) (m : Num) (d : List Int) :
+    register_numeric_function__quantity_function (pyBuiltin1 fn) rec (.qty m d) = bQtyFn fn rec [.qty m d] := by
+  simp only [register_numeric_function__quantity_function, pyBuiltin1, bQtyFn, pyAttr, pyQv, ok_bind, map_def, bind_assoc, mkQuantity]
+
+end Builtins
+
+/-! ### bodies whose hand-written model does not go through the dispatcher: `ka_sqrt`, `strict_pow`
+
+  The Python code asks `dispatch("<", (x, 0))`; the hand-written model compares directly.  They agree for a dispatcher
+  that computes `<`, `==` and `int` on plain numbers as Ka does (`NumSem`) — proved for `Eval.dispatchV (n + 1)` below. -/
+
+/-- the dispatcher computes `<`, `==` and `int` on plain numbers as Ka's registered implementations do -/
+def NumSem (rec : Disp) : Prop :=
+  (∀ x y, rec "<" [.num x, .num y] = .ok (b2v (cmpLt x y))) ∧
+  (∀ x y, rec "==" [.num x, .num y] = .ok (b2v (cmpEq x y))) ∧
+  (∀ x, rec "int" [.num x] = liftN (Elementary.applyNum .toInt x))
+
+theorem numSem_dispatchV (n : Nat) : NumSem (fun nm as => dispatchV (n + 1) nm as []) := by
+  refine ⟨fun x y => ?_, fun x y => ?_, fun x => ?_⟩
+  · have t := (num_table2 _ (numClass_mem x) _ (numClass_mem y)).2.2.2.2.2.2.1
+    exact dispatch_cmp n "<" _ x y t
+  · have t := (num_table2 _ (numClass_mem x) _ (numClass_mem y)).2.2.2.2.2.2.2.2.1
+    exact dispatch_cmp n "==" _ x y t
+  · have t := (num_table1 _ (numClass_mem x)).2.2.2.2.2.2.1
+    exact dispatch_fn1 n "int" _ .toInt x t
+
+section Sem
+variable {rec : Disp}
+open Gen.Bodies
+
+theorem truthy_b2v (b : Bool) : pyTruthy (b2v b) = .ok b := by
+  cases b <;> rfl
+
+theorem is_true_b2v (b : Bool) : is_true rec (b2v b) = .ok b := by
+  cases b <;> rfl
+
+theorem ka_sqrt_agree (h : NumSem rec) (x : Num) :
+    ka_sqrt rec (.num x) = bNum1 (Elementary.body .sqrt) rec [.num x] := by
+  simp only [ka_sqrt, PyRt.pyInt, h.1, ok_bind, truthy_b2v, bNum1, Elementary.body, Elementary.kaSqrt, mathSqrt, pyRaise_def]
+  cases cmpLt x (.int 0) <;> rfl
+
+theorem quantity_function_sqrt_agree (h : NumSem rec) (m : Num) (d : List Int) :
+    register_numeric_function__quantity_function ka_sqrt rec (.qty m d) = bQtyFn .sqrt rec [.qty m d] := by
+  simp only [register_numeric_function__quantity_function, ka_sqrt_agree h, bNum1, bQtyFn, pyAttr, pyQv, ok_bind, map_def, bind_assoc,
+    mkQuantity]
+
+/-- `is_fractional(y)` through a dispatcher that computes `int` and `==` as Ka does is `Num.isFractional` -/
+theorem is_fractional_sem (h : NumSem rec) (y : Num) : is_fractional rec (.num y) = liftE (Num.isFractional y) := by
+  simp only [is_fractional, h.2.2, Elementary.applyNum, Elementary.body, unop, Num.isFractional]
+  cases hy : Num.pyInt y with
+  | error e => rfl
+  | ok t =>
+    simp only [bind, Except.bind, simplify, liftN, h.2.1, is_true_b2v, liftE, pure, Except.pure]
+
+theorem pyPow_of_fractional_error {x y : Num} {e : Err} (hy : Num.isFractional y = .error e) : pyPow x y = .error e := by
+  simp only [pyPow, hy, bind, Except.bind]
+
+theorem pyPow_of_guard {x y : Num} (hy : Num.isFractional y = .ok true) (hc : cmpLt x (.int 0) = true) :
+    pyPow x y = .error .runtime := by
+  simp only [pyPow, hy, hc, bind, Except.bind, Bool.and_self, if_true]
+
+theorem strict_pow_agree (h : NumSem rec) (x y : Num) (hp : hugePow x y = false) :
+    strict_pow rec (.num x) (.num y) = bPow rec [.num x, .num y] := by
+  simp only [strict_pow, is_fractional_sem h, PyRt.pyInt, h.1, is_true_b2v, bPow, hp, Bool.false_eq_true, if_false, pyPowOp,
+    pyRaise_def]
+  cases hy : Num.isFractional y with
+  | error e => simp only [pyPow_of_fractional_error hy, liftE, error_bind, Except.map]
+  | ok fr =>
+    cases fr with
+    | false => simp only [liftE, ok_bind, pure_def, Bool.false_eq_true, if_false]
+    | true =>
+      cases hc : cmpLt x (.int 0) with
+      | false => simp only [is_true_b2v, liftE, ok_bind, pure_def, Bool.false_eq_true, if_false, if_true]
+      | true => simp only [is_true_b2v, pyPow_of_guard hy hc, liftE, ok_bind, pure_def, if_true, Except.map]
+
+end Sem
+
 /-! ### arrays, ranges, variadic max / min (no hypothesis on the dispatcher is needed) -/
 
 section Arrays
